@@ -28,9 +28,12 @@ SPEC = {
                    "pre-set, local/ and debug/ pre-existing, telemetry directory unreachable; observed per case: exit "
                    "status, whether Start returned, every process record (kind, marker, upload variable), token "
                    "existence/(re)creation, whether anything in the directory changed. Then 12 (thorough 80) races of 8 "
-                   "real starter processes released together by a barrier, and 400 (thorough 6000) rounds of 4..16 "
-                   "goroutines calling the real acquireUploadToken at once (exported by an injected file), token "
-                   "absent/fresh/stale. distinct = distinct case lines; every line is compared with the model"),
+                   "real starter processes released together by a barrier, 400 (thorough 6000) rounds of 4..16 "
+                   "goroutines of the driver calling telemetry.Start at once (no exporter: only the public entry points "
+                   "Start/MaybeChild are called), token absent/fresh/stale, and 40 (thorough 600) histories of 3..6 starts one "
+                   "after the other on one directory with the token aged in between (its mtime moved back by 0..72h, which is "
+                   "what real time passing does). Config.UploadStartTime is a dimension everywhere (zero, now, 1h, 25h, 8d, "
+                   "400d ahead, 25h/8d back). distinct = distinct case lines; every line is compared with the model"),
     ],
     "technique": "Coq proof: decision table as a function over arbitrary byte strings (marker, mode) and booleans, proved by case "
                  "analysis on the code's own tests; process tree by a fuel-indexed recursive function whose shape is proved "
@@ -51,7 +54,11 @@ SPEC = {
                   "(C16_off_file_inert, _off_spelling_is_off); for EVERY schedule of ANY number of "
                   "starters with time passing, within less than the 24h period and the token absent or young through the "
                   "window, at most one acquires the token, and none if it was present (C16_token_at_most_once, "
-                  "_token_fresh_no_winner); the stale-token race is exhibited (C16_token_stale_refuted).",
+                  "_token_fresh_no_winner); the stale-token race is exhibited (C16_token_stale_refuted); Config.UploadStartTime has "
+                  "no part in the decision (C16_upload_start_time_irrelevant); in every history of sequential starts two "
+                  "acquisitions are at least 24h of real time apart, a refused start leaves the token untouched and a start 24h "
+                  "after the last acquisition acquires (C16_history_is_spaced, _refused_start_keeps_token, "
+                  "_history_acquires_after_period, _history_refused_then_same).",
     "level_note": "C16_token_stale_refuted is not a finding: the property's hypothesis (no stale token present) excludes it and "
                   "the source comment concedes it. Trusted: Coq kernel+VM, extraction, OCaml glue, Go harness. The model is tied "
                   "to the code by the correspondence suite only. Not modelled: os.Executable / cmd.Start / StdinPipe / debug "
